@@ -37,10 +37,10 @@ CHECKS = {
     "C10": {
         "level": "exploration",
         "groups": [
-            {"name": "c10", "run": "^TestC10_", "shards": {"quick": 4, "thorough": 16},
+            {"name": "c10", "run": "^TestC10_", "shards": {"quick": 8, "thorough": 16},
              "timeout": {"quick": 600, "thorough": 3000},
              "fuzz": ["FuzzC10"], "fuzztime": 180,
-             "checks": ["c10-parser"]},
+             "checks": ["c10-parser", "c10-process"]},
         ],
     },
     "C13": {
